@@ -103,7 +103,8 @@ def run_driver(src: Path, tmp: Path, progs, types, cases, name="job", timeout=36
     jf = tmp / f"{name}.json"
     of = tmp / f"{name}.out.json"
     dump_json(jf, job)
-    p = subprocess.run([PY, "-B", str(VERIF / "harness" / "drivers" / "proto_driver.py"), str(src), str(jf), str(of)],
+    from .common import die_with_parent
+    p = subprocess.run([PY, "-B", str(VERIF / "harness" / "drivers" / "proto_driver.py"), str(src), str(jf), str(of)], preexec_fn=die_with_parent,
                        capture_output=True, text=True, timeout=timeout,
                        env={"PATH": "/usr/local/bin:/usr/bin:/bin", "PYTHONHASHSEED": "0", "PYTHONDONTWRITEBYTECODE": "1"})
     if p.returncode != 0 or not of.exists():
